@@ -146,9 +146,44 @@ def roundtrip_family(rep, tier):
                     "roundtrip_section_bytes_differ_from_model(informational)": bytes_differ})
     return len(cases)
 
+def constants_family(rep):
+    """the constant universe of MechConst (every element kind x container): the file the compiler emits for `x := literal`
+    must load, its constants must decode (and hold the value the interpreter computed), and it must re-encode byte for byte"""
+    import absval
+    from areas.c06 import const_programs, val
+    progs, t = const_programs(rep)
+    progs = [(f, st) for f, st in progs if len(st) == 1]
+    reqs = [{"id": i, "mode": "bytecode", "stmts": st, "want_bytes": True} for i, (_, st) in enumerate(progs)]
+    outs = execpool.run_requests(reqs, nworkers=16, timeout=25, mem_limit_mb=4096)
+    ok = 0; holds = 0; notcompiled = 0
+    for (fam, st), (resp, oc) in zip(progs, outs):
+        replay = {"stmts": st}
+        if oc != "ok" or not resp:
+            notcompiled += 1; continue                       # compile hangs / aborts are C06's subject (tuples)
+        if resp.get("interp", {}).get("r") != "ok" or resp.get("compile", {}).get("r") != "ok":
+            notcompiled += 1; continue
+        ld = resp.get("load", {})
+        if ld.get("r") != "ok":
+            rep.fail(f"C07/roundtrip/emitted-file-{ld.get('r')}/{fam}", f"{st}: the file the compiler emitted does not load: {ld}", replay); continue
+        cv = ld.get("consts", {})
+        if cv.get("r") != "ok":
+            fsig = f"{cv.get('class')}/{fam.split('/')[0]}" if cv.get("class") == "UnsupportedConstantType" else f"{cv.get('class') or cv.get('r')}/{fam}"
+            rep.fail(f"C07/roundtrip/constants-do-not-decode/{fsig}", f"{st}: the constants of the emitted file do not decode: {cv}", replay); continue
+        if not (ld.get("reenc", {}).get("r") == "ok" and ld["reenc"].get("eq")):
+            rep.fail(f"C07/roundtrip/reencode/{fam}", f"{st}: decode + re-encode does not reproduce the emitted bytes", replay); continue
+        hx = resp.get("hex", "")
+        if hx and zlib.crc32(bytes.fromhex(hx[:-8])) != int.from_bytes(bytes.fromhex(hx[-8:]), "little"):
+            rep.fail(f"C07/roundtrip/crc/{fam}", f"{st}: trailer is not the CRC-32 of the payload", replay); continue
+        ok += 1
+        want = val(resp["interp"])
+        if want is not None and any(absval.absval(c) == want for c in cv["v"]): holds += 1
+    log(f"[C07] constant universe: {len(progs)} literal programs, {ok} emitted files load / decode / re-encode exactly ({holds} hold the interpreter's value among their constants; {notcompiled} not compiled)")
+    rep.cov.update({"const_universe_files": ok, "const_universe_value_found": holds, "const_universe_not_compiled": notcompiled})
+    return ok
+
 def run(rep, tier, seed):
     rnd = random.Random(seed)
-    nrt = roundtrip_family(rep, tier)
+    nrt = roundtrip_family(rep, tier) + constants_family(rep)
     progs = PROGRAMS if tier != "quick" else PROGRAMS[:8]
     reqs = [{"id": i, "mode": "bytecode", "stmts": p, "want_bytes": True} for i, p in enumerate(progs)]
     outs = execpool.run_requests(reqs, nworkers=8, timeout=60, mem_limit_mb=4096)
